@@ -289,6 +289,27 @@ def run(task):
                         res.outcomes[kind2 or "ok-absent"] += 1
                         if kind2:
                             res.violation("C13|absent:%s|%s" % (kind2, where_tag(stmts, i)), "%s statement %d %r replaced by an INCLUDE of a missing file; reader=%s ic=%s\n%s\n--- main:\n%s" % (pid, i + 1, s.line(), reader_kind, ic, detail, main), {"mode": "absent", "main": main, "reader": reader_kind, "ic": ic, "std": std, "base_lines": base_lines, "i": i, "tag": where_tag(stmts, i)}, cost=len(main))
+            # the INCLUDE line INSERTED between two statements of an execution
+            # part (before every executable statement, opener, END DO ...)
+            for i in range(1, len(stmts)):
+                if not (exec_like(stmts[i - 1]) and exec_like(stmts[i])) or stmts[i - 1].text.lower().startswith("select"):
+                    continue
+                main = "\n".join(L[:i] + ["   include 'absent_file.inc'"] + L[i:]) + "\n"
+                for reader_kind in ("string", "file"):
+                    for ic in (True, False):
+                        work.clear()
+                        if reader_kind == "file":
+                            work.decoys(["absent_file.inc"])
+                        res.evals += 1
+                        res.transitions += 1
+                        hk = h64(main, reader_kind, str(ic), "ins")
+                        res.states.add(hk)
+                        res.nontrivial.add(hk)
+                        o = parse_with(work, main, reader_kind, [work.d1], std, ic)
+                        kind2, detail = judge_absent(o, base_lines, i, insert=True)
+                        res.outcomes[kind2 or "ok-absent-inserted"] += 1
+                        if kind2:
+                            res.violation("C13|absent-inserted:%s|before %s" % (kind2, stmts[i].kind), "%s INCLUDE of a missing file inserted before statement %d %r; reader=%s ic=%s\n%s\n--- main:\n%s" % (pid, i + 1, stmts[i].line(), reader_kind, ic, detail, main), {"mode": "absent", "insert": True, "main": main, "reader": reader_kind, "ic": ic, "std": std, "base_lines": base_lines, "i": i, "tag": "before " + stmts[i].kind}, cost=len(main))
     finally:
         work.close()
     return res
@@ -397,11 +418,29 @@ def where_tag(stmts, i):
     return opens[-1] if opens else "top"
 
 
-def judge_absent(o, base_lines, i):
+_EXEC_RE = None
+
+
+def exec_like(s):
+    """is s an executable statement / part of an executable construct?  (model
+    side: decided from the corpus text the model wrote itself)"""
+    global _EXEC_RE
+    import re
+
+    if _EXEC_RE is None:
+        _EXEC_RE = re.compile(
+            r"(?i)^(\w+(\([^=]*\))?(%\w+(\([^=]*\))?)*\s*=[^=>]|call\b|print\b|write\s*\(|read\b|if\s*\(|go\s*to\b|goto\b|stop\b|return\b|allocate\s*\(|"
+            r"deallocate\s*\(|open\s*\(|close\s*\(|continue$|cycle\b|exit\b|do\b|end\s*do\b|end\s*if\b|else\b|select\s+case|end\s*select|"
+            r"where\s*\(|end\s*where|elsewhere|forall\s*\(|end\s*forall|error\s+stop|nullify\s*\()"
+        )
+    return _EXEC_RE.match(s.text) is not None and not s.text.lower().startswith(("case", "type is", "class"))
+
+
+def judge_absent(o, base_lines, i, insert=False):
     if not o.ok:
         return "rejected:" + o.klass(), (o.msg or "")[:300]
     got = [l.strip() for l in text_of(o.tree).split("\n") if l.strip()]
-    want = base_lines[:i] + ["INCLUDE 'absent_file.inc'"] + base_lines[i + 1 :]
+    want = base_lines[:i] + ["INCLUDE 'absent_file.inc'"] + base_lines[(i if insert else i + 1) :]
     if got != want:
         for k, (a, b) in enumerate(zip(got, want)):
             if a != b:
@@ -422,10 +461,10 @@ def replay(case):
             if case["reader"] == "file":
                 work.decoys(["absent_file.inc"])
             o = parse_with(work, case["main"], case["reader"], [work.d1], case["std"], case["ic"])
-            k, d = judge_absent(o, case["base_lines"], case["i"])
+            k, d = judge_absent(o, case["base_lines"], case["i"], insert=bool(case.get("insert")))
         finally:
             work.close()
-        return [{"sig": "C13|absent:%s|%s" % (k, case["tag"]), "detail": d}] if k else []
+        return [{"sig": "C13|absent%s:%s|%s" % ("-inserted" if case.get("insert") else "", k, case["tag"]), "detail": d}] if k else []
     if case.get("mode") == "history":
         from mc.forktree import run_isolated
 
